@@ -2,6 +2,7 @@ import ElfiVerif.Drive.C15
 import ElfiVerif.Drive.C13
 import ElfiVerif.Drive.C01
 import ElfiVerif.Drive.C12
+import ElfiVerif.Drive.C05
 import ElfiVerif.Drive.C06
 import ElfiVerif.Drive.C04
 import ElfiVerif.Drive.C18
@@ -34,7 +35,8 @@ def allHandlers : List (String × H) :=
   ElfiVerif.Drive.C03.handlers ++ ElfiVerif.Drive.C02.handlers ++
   ElfiVerif.Drive.C16.handlers ++ ElfiVerif.Drive.C17.handlers ++
   ElfiVerif.Drive.C08.handlers ++ ElfiVerif.Drive.C07.handlers ++
-  ElfiVerif.Drive.C10.handlers ++ ElfiVerif.Drive.C11.handlers ++ ElfiVerif.Drive.C20.handlers
+  ElfiVerif.Drive.C10.handlers ++ ElfiVerif.Drive.C11.handlers ++ ElfiVerif.Drive.C20.handlers ++
+  ElfiVerif.Drive.C05.handlers
 
 def handleLine (line : String) : String :=
   match Json.parse line with
